@@ -126,8 +126,9 @@ type run struct {
 	barriers int
 }
 
-func runScenario(t *testing.T, c Case) run {
-	var r run
+// runScenario fills *r as it goes, so that what the monitors recorded survives a bubble that cannot be
+// left (synctest.Test then panics in the caller, see eval).
+func runScenario(t *testing.T, c Case, r *run) {
 	synctest.Test(t, func(t *testing.T) {
 		rand.Seed(c.Seed)
 		start := time.Now()
@@ -339,7 +340,6 @@ func runScenario(t *testing.T, c Case) run {
 			}
 		}
 	})
-	return r
 }
 
 // ---------------------------------------------------------------------------------------------
@@ -747,7 +747,7 @@ func (x *runner) eval(c Case) run {
 		defer x.wd.leave()
 	}
 	var r run
-	p, pv := vlib.Try(func() { r = runScenario(x.t, c) })
+	p, pv := vlib.Try(func() { runScenario(x.t, c, &r) })
 	if p {
 		r.deadlock = fmt.Sprint(pv)
 	}
@@ -758,10 +758,11 @@ func (x *runner) do(c Case, tag string) {
 	rr := x.eval(c)
 	x.res.Count("case." + tag)
 	if rr.deadlock != "" {
+		// a broken correspondence; whatever the monitors recorded before the bubble got stuck is still
+		// reported below (it used to be dropped together with the run)
 		x.res.Count("bubble-deadlock")
 		x.res.Fail(vlib.Failure{Source: "correspondence", Kind: "bubble-deadlock", Params: map[string]interface{}{},
 			What: "goroutines of the code under test stayed blocked after the scenario had stopped the group and released every f: " + rr.deadlock, Case: c})
-		return
 	}
 	x.res.CountN("runs-of-f", int(rr.runs))
 	x.res.CountN("stopandwait-returned", rr.barriers)
@@ -791,7 +792,7 @@ func (x *runner) do(c Case, tag string) {
 		}
 		x.res.Fail(vlib.Failure{Source: "monitor", Kind: f2.kind, Params: f2.params, What: f2.what, Case: small})
 	}
-	if !c.NoModel && x.model != nil {
+	if !c.NoModel && x.model != nil && rr.deadlock == "" {
 		x.mCases = append(x.mCases, c)
 		x.mLines = append(x.mLines, modelLines(rr.lines))
 		if len(x.mCases) >= 50 {
